@@ -939,6 +939,10 @@ def run(chk):
     chk.exhaustive = False
 
     impl = pmap(run_card, items, chunksize=16)
+    # U-lexer: the Lean lexer model against the real SLY lexers, on these cards and on a malformed stream
+    from vlib import lexlib
+
+    lexlib.run_unit(chk, [(it["spec"]["kind"], r["text"]) for it, r in zip(items, impl)])
 
     # the Lean side: Spec classes for every card that has a Lean family; model dispatch for every accepted card
     reqs = []
